@@ -131,6 +131,43 @@ def quoter(fn):
     return opening, pairs, closing
 
 
+def joiner():
+    """report.cc fn_join -> pairs (K, V): every K is written as V, every other character is copied.
+    Accepted shapes of the loop body:
+        if (ch != K) out << ch; else out << V;
+        if (ch == K) out << V; [else if (ch == K2) out << V2;]* else out << ch;
+    Anything else (a range test, a second statement) is not recognised."""
+    text = strip_comments_keep_strings(src("report.cc"))
+    body = function_body(text, r"value_t\s+report_t::fn_join\s*\(\s*call_scope_t\s*&\s*args\s*\)\s*\{")
+    m = re.search(r"foreach\s*\(\s*const\s+char\s+ch\s*,\s*arg\s*\)\s*\{", body)
+    need(m, "fn_join: no `foreach (const char ch, arg) {` loop")
+    loop = function_body(body, r"foreach\s*\(\s*const\s+char\s+ch\s*,\s*arg\s*\)\s*\{")
+    pre = [x.strip() for x in body[:m.start()].split(";") if x.strip()]
+    post = [x.strip() for x in body[m.end() + len(loop) + 1:].split(";") if x.strip()]
+    need(len(pre) == 2 and re.fullmatch(r"std::ostringstream\s+out", pre[0]) and
+         re.fullmatch(r"string\s+arg\s*\(\s*args\.get<string>\(0\)\s*\)", pre[1]),
+         "fn_join: unexpected statements before the loop: %r" % pre)
+    need(len(post) == 1 and re.fullmatch(r"return\s+string_value\s*\(\s*out\.str\(\)\s*\)", post[0]),
+         "fn_join: unexpected statements after the loop: %r" % post)
+    rest = loop.strip()
+    m1 = re.fullmatch(r"if\s*\(\s*ch\s*!=\s*(%s)\s*\)\s*out\s*<<\s*ch\s*;\s*else\s+([^;]*;)" % LIT, rest)
+    if m1:
+        return [(c_literal(m1.group(1)), streamed_literals(m1.group(2)))]
+    pairs = []
+    first = True
+    while True:
+        mm = re.match(r"(?:else\s+)?if\s*\(\s*ch\s*==\s*(%s)\s*\)\s*([^;]*;)\s*" % LIT, rest)
+        if not mm:
+            break
+        need(first or rest.startswith("else"), "fn_join: second `if` without `else`")
+        first = False
+        pairs.append((c_literal(mm.group(1)), streamed_literals(mm.group(2))))
+        rest = rest[mm.end():]
+    need(pairs and re.fullmatch(r"else\s+out\s*<<\s*ch\s*;", rest.strip()),
+         "fn_join: loop body has an unrecognised shape: " + loop.strip())
+    return pairs
+
+
 # ---- report.h: default csv format ----------------------------------------------------
 
 
@@ -351,6 +388,7 @@ def gen_emit():
     ro, rp, rc = quoter("fn_quoted_rfc")
     fmt, quoter_name, cols = csv_format()
     ep, escaped, raw = emacs()
+    jp = joiner()
     writer = xml_writer()
     xp, blank, xsrc = xml_entities()
     L = ["/- GENERATED by tools/extract_emit.py from src/report.cc, src/report.h, src/emacs.cc, src/ptree.cc",
@@ -370,7 +408,9 @@ def gen_emit():
          "/-- the quoting function every column of the default csv format is wrapped in -/",
          "def csvQuoter : String := " + lean_str(quoter_name),
          "/-- the column expressions of the default csv format, in order -/",
-         "def csvColumns : List String := " + lean_list([lean_str(c) for c in cols]), "",
+         "def csvColumns : List String := " + lean_list([lean_str(c) for c in cols]),
+         "/-- report.cc `fn_join` (`join(x)` in format strings): (K, V) = K is written as V, everything else is copied. -/",
+         "def joinPairs : List (Char × List Char) := " + lean_pairs(jp), "",
          "/-- emacs.cc `escape_string`: the `replace_all(raw, K, V)` calls, in program order. -/",
          "def emacsEscapePairs : List (Char × List Char) := " + lean_pairs(ep),
          "/-- emacs.cc `write_xact` / `operator()`: every operand streamed through `escape_string`, in program order. -/",
@@ -393,7 +433,16 @@ def gen_emit():
 
 EMIT_FNS = [
     ("report.cc", [("report.cc:fn_quoted", r"value_t\s+report_t::fn_quoted\s*\(call_scope_t& args\)\s*\{"),
-                   ("report.cc:fn_quoted_rfc", r"value_t\s+report_t::fn_quoted_rfc\s*\(call_scope_t& args\)\s*\{")]),
+                   ("report.cc:fn_quoted_rfc", r"value_t\s+report_t::fn_quoted_rfc\s*\(call_scope_t& args\)\s*\{"),
+                   ("report.cc:fn_join", r"value_t\s+report_t::fn_join\s*\(call_scope_t& args\)\s*\{"),
+                   ("report.cc:fn_commodity", r"value_t\s+report_t::fn_commodity\s*\(call_scope_t& args\)\s*\{"),
+                   ("report.cc:fn_quantity", r"value_t\s+report_t::fn_quantity\s*\(call_scope_t& args\)\s*\{"),
+                   ("report.cc:fn_scrub", r"value_t\s+report_t::fn_scrub\s*\(call_scope_t& args\)\s*\{")]),
+    ("post.cc", [("post.cc:get_display_account", r"value_t\s+get_display_account\s*\(call_scope_t& args\)\s*\{"),
+                 ("post.cc:get_note", r"value_t\s+get_note\s*\(post_t& post\)\s*\{"),
+                 ("post.cc:get_payee", r"value_t\s+get_payee\s*\(post_t& post\)\s*\{")]),
+    ("xact.cc", [("xact.cc:get_code", r"value_t\s+get_code\s*\(xact_t& xact\)\s*\{"),
+                 ("xact.cc:get_payee", r"value_t\s+get_payee\s*\(xact_t& xact\)\s*\{")]),
     ("emacs.cc", [("emacs.cc:write_xact", r"void\s+format_emacs_posts::write_xact\s*\(xact_t& xact\)\s*\{"),
                   ("emacs.cc:operator()", r"void\s+format_emacs_posts::operator\(\)\s*\(post_t& post\)\s*\{"),
                   ("emacs.cc:escape_string", r"string\s+format_emacs_posts::escape_string\s*\(string raw\)\s*\{")]),
